@@ -425,7 +425,7 @@ func finish(x *explore.X, w *world.World, org *world.Hop) {
 
 func TestC07(t *testing.T) {
 	s := explore.NewSuite(t, "C07", "model_checking",
-		"(cache core, in-package) mitm.Config.cert on the virtual clock over a cache of capacity 1-2 with TTL 30 min / 3 h and validity 1 h: EVERY sequence of depth 3 (quick) / 4 (thorough) over {cert(name) for 15 names incl. DNS names of exactly 64, 65 and 253 octets, case variants, IPv4/IPv6 literals, host:port forms, an IDN and a wildcard-looking name; advance the clock by TTL/2, TTL+1min, validity+1min}; states = call/clock histories; every returned certificate is verified with crypto/x509 against the CA for the requested host at the current virtual time and its key is compared with the handshake key; TLSForHost with and without SNI; N=2-4 goroutines calling cert concurrently for colliding names over 1-2 rounds with expiry in between; 2-3 scheduler threads calling cert with every interleaving of their Get/verify/create/Add steps within the preemption bound; (proxy) CONNECT authority(5: name, upper case, IPv4, IPv6, non-default port) x SNI(same, absent, different) x origin certificate(valid, expired, wrong name, untrusted) x insecure x mitm-domains(none, include, exclude), deviation-bounded (D=3 quick, 5 thorough=full): the chain presented to the client must verify for the name it asked for; a non-verifying origin receives no request and the client an error response; excluded hosts are tunnelled (client sees the origin's own certificate); (sessions-on-one-proxy) ONE proxy with MITM and one excluded host, upstream {none, http proxy, https proxy}, EVERY sequence of 2 (quick) / 4 (thorough) sessions out of {tunnel to the excluded host, intercepted session to an origin with a valid / wrong-name (valid for every other name in play) / expired certificate}: each session is judged as if it were the first")
+		"(cache core, in-package) mitm.Config.cert on the virtual clock over a cache of capacity 1-2 with TTL 30 min / 3 h and validity 1 h: EVERY sequence of depth 3 (quick) / 4 (thorough) over {cert(name) for 15 names incl. DNS names of exactly 64, 65 and 253 octets, case variants, IPv4/IPv6 literals, host:port forms, an IDN and a wildcard-looking name; advance the clock by TTL/2, TTL+1min, validity+1min}; states = call/clock histories; every returned certificate is verified with crypto/x509 against the CA for the requested host at the current virtual time and its key is compared with the handshake key; TLSForHost with and without SNI; N=2-4 goroutines calling cert concurrently for colliding names over 1-2 rounds with expiry in between; 2-3 scheduler threads calling cert with every interleaving of their Get/verify/create/Add steps within the preemption bound; (proxy) CONNECT authority(5: name, upper case, IPv4, IPv6, non-default port) x SNI(same, absent, different) x origin certificate(valid, expired, wrong name, untrusted) x insecure x mitm-domains(none, include, exclude), deviation-bounded (D=3 quick, 5 thorough=full): the chain presented to the client must verify for the name it asked for; a non-verifying origin receives no request and the client an error response; excluded hosts are tunnelled (client sees the origin's own certificate); (sessions-on-one-proxy) ONE proxy with MITM and one excluded host, upstream {none, http proxy, https proxy}, EVERY sequence of 2 (quick) / 4 (thorough) sessions out of {tunnel to the excluded host, intercepted session to an origin with a valid / wrong-name (valid for every other name in play) / expired certificate}: each session is judged as if it were the first; (round 9) through-proxy x MITM CA {generated by the proxy, configured by the operator as data: URIs: ECDSA P-256 with a SEC 1 key, RSA-2048 with a PKCS #8 key}: the chain is verified against the CA that was configured")
 	s.Assume = []string{"crypto/x509 and crypto/tls are the verifiers", "the cache-core harness builds mitm.Config field by field like NewConfigWithCache but reuses one RSA leaf key per process", "(interleaved-callers) scheduling points are inserted at build time before every cache Get/Add of mitm.Config.cert: all interleavings of 2-3 callers with at most 2 (quick) / 3 (thorough) preemptions; the cache itself (freelru) is locked internally and treated as atomic"}
 	mitm.VerifAddCacheScenarios(t, s)
 	s.Add(explore.Scenario{Name: "through-proxy", Remote: true, MaxDev: map[string]int{"quick": 3, "thorough": 5},
